@@ -88,7 +88,7 @@ def generate():
            "type Result<T, E = NetworkError> = std::result::Result<T, E>;",
            ""]
     c, m = extract_items("ant-networking/src/cmd.rs", [("const", "REPLICATION_TIMEOUT"), ("const", "MIN_REPLICATION_INTERVAL_S"), ("fn", "get_peers_in_range")])
-    out.append(c)
+    out.append(c.replace("\nfn get_peers_in_range", "\npub(crate) fn get_peers_in_range"))
     meta.append(m)
     out.append("impl SwarmDriver {")
     c, m = extract_items("ant-networking/src/cmd.rs", [("fn", "try_interval_replication"), ("fn", "get_replicate_candidates")])
